@@ -73,6 +73,8 @@ def main():
     st = sh("git -C /repo status --porcelain --untracked-files=no")[1].strip()
     if st:
         print("/repo has tracked changes, refusing:", st); return 2
+    if sh("git status --porcelain --untracked-files=no lean tools/scrub_expected.json", cwd=V)[1].strip():
+        print("uncommitted changes under lean/ (the restore after the run would destroy them): commit first"); return 2
     rc, out = sh("git -C /repo apply %s" % patch)
     if rc:
         print("apply to /repo failed", out); return 2
